@@ -5,6 +5,7 @@ model grows; see DESIGN.md.)
 import Complgen.Model.Pipeline
 import Complgen.Proofs.NoCrash
 import Complgen.Proofs.PipelineMin
+import Complgen.Proofs.BuildTerm
 namespace Complgen.Props.C06
 open Complgen Complgen.Check
 
@@ -34,5 +35,23 @@ input |states|² rounds suffice). -/
 theorem minimiser_budget_suffices (σ : Schedule) (g : Grammar) (sh : Shell) :
     Pipeline.compile σ g sh ≠ .crash "do_minimize: out of fuel" :=
   Pipeline.compile_never_minimize_fuel σ g sh
+
+/-- **The subset construction terminates**: on every compiled expression — and more generally whenever
+the first/follow sets only mention positions up to the end marker — the model's work-list loop ends
+within its budget of 2^(n+1) rounds (every round pops a set of positions, every set is pushed once,
+and there are at most 2^(n+1) sets of positions `≤ n`), for every schedule. -/
+theorem subset_construction_terminates (σ : Schedule) (e : Expr) (pool : RxPool) (symOf : Nat → Option Inp) :
+    (buildAuto σ (Regex.ofExpr e pool).1 symOf).isSome :=
+  buildAuto_ofExpr_isSome σ e pool symOf
+
+/-- **The only crash outcome of the whole pipeline model** (validate ▸ regex ▸ ambiguity checks ▸
+symbols and within-word automata ▸ subset construction ▸ minimisation ▸ ambiguity check) is the
+modelled native stack of `check_subword_spaces`: no budget of a loop runs out and no pool lookup
+fails, for any grammar, shell and schedule.  Every other run of the model ends in a result or in a
+diagnosed error. -/
+theorem pipeline_crash_only_stack (σ : Schedule) (g : Grammar) (sh : Shell) (s : String)
+    (h : Pipeline.compile σ g sh = .crash s) :
+    s = "check_subword_spaces: unbounded recursion through cyclic definitions" :=
+  Pipeline.compile_crash_only_stack σ g sh s h
 
 end Complgen.Props.C06
